@@ -189,6 +189,7 @@ func propC17(o *out, r *rng, thorough bool) {
 		"SELECT top(value, host, 3), \"Default\" FROM \"sHoW\".\"rp\".cpu WHERE \"From\" = 1", "sHoW mEaSuReMeNtS", "CREATE USER \"Default\" WITH PASSWORD 'secret'", "SET PASSWORD FOR u = 'pw'",
 		"SELECT count(DISTINCT v1) FROM cpu WHERE time >= '2000-01-01T00:00:00Z' AND time < '2000-01-02' TZ('UTC')",
 		// wildcard expansion over one measurement with explicit tag dimensions (the schema's maps are shared by all goroutines)
+		"SELECT time, value, usage FROM cpu", "SELECT time AS t, mean(value), max(usage) FROM cpu GROUP BY time(1m)", "SELECT value, time, usage FROM cpu WHERE host = 'a'",
 		"SELECT * FROM cpu GROUP BY host", "SELECT *, value FROM cpu GROUP BY region, time(1m)", "SELECT mean(*) FROM cpu GROUP BY host, region", "SELECT /a/ FROM cpu GROUP BY *",
 		// statements of other kinds whose sources or names a privilege or name query might be tempted to fill in
 		"SHOW SERIES EXACT CARDINALITY ON db0 FROM cpu, rp1.mem", "SHOW TAG VALUES CARDINALITY ON db0 FROM cpu WITH KEY = host", "SHOW MEASUREMENT CARDINALITY ON db0 FROM /c/", "DELETE FROM cpu WHERE host = 'a'",
